@@ -48,6 +48,8 @@ package trie
 //@   assert n != nil && len(key) > 0 && key[d] < n.c ==> ((result0 != nil && result0.isValid) <==> key in S[n])
 //@   assert n != nil && len(key) > 0 && key[d] > n.c ==> ((result0 != nil && result0.isValid) <==> key in S[n])
 //@   assert n != nil && len(key) > 0 && key[d] == n.c && d < len(key) - 1 ==> ((result0 != nil && result0.isValid) <==> key in S[n])
+//@   assert n != nil && len(key) > 0 && key[d] == n.c && d == len(key) - 1 && n.isValid ==> (term[n] in S[n] && strwf(term[n]) && len(term[n]) == len(key) && agree(term[n], wit[n], d) && term[n][d] == key[d])
+//@   assert n != nil && len(key) > 0 && key[d] == n.c && d == len(key) - 1 && n.isValid ==> (agree(term[n], key, len(key)))
 //@   assert n != nil && len(key) > 0 && key[d] == n.c && d == len(key) - 1 && n.isValid ==> streq(term[n], key)
 //@   assert n != nil && len(key) > 0 && key[d] == n.c && d == len(key) - 1 ==> ((result0 != nil && result0.isValid) <==> key in S[n])
 //@   ensures n != nil && len(key) > 0 ==> ((result0 != nil && result0.isValid) <==> key in S[n])
@@ -724,6 +726,16 @@ package trie
 //@   ensures tvalid(result, nrepr, nS, nterm, nwit, ndep, store(vm, key, val)) && ndep[result] == d && nwit[result] == key
 //@   ensures forall k K :: { k in nS[result] } k in nS[result] <==> ((n != nil && k in S[n]) || k == key)
 //@   ensures (n != nil ==> nsubset(repr[n], nrepr[result])) && forall x *node :: { x in nrepr[result] } x in nrepr[result] && !(n != nil && x in repr[n]) ==> fresh(x) && x != nil
+//@   assert n != nil && key[d] < n.c && old(n.left) == nil ==> (toutside(n, repr, S, term, wit, dep, nrepr, nS, nterm, nwit, ndep))
+//@   assert n != nil && key[d] < n.c && old(n.left) != nil ==> (toutside(n, repr, S, term, wit, dep, nrepr, nS, nterm, nwit, ndep))
+//@   assert n != nil && key[d] > n.c && old(n.right) == nil ==> (toutside(n, repr, S, term, wit, dep, nrepr, nS, nterm, nwit, ndep))
+//@   assert n != nil && key[d] > n.c && old(n.right) != nil ==> (toutside(n, repr, S, term, wit, dep, nrepr, nS, nterm, nwit, ndep))
+//@   assert n == nil && d < len(key) - 1 ==> (toutside(n, repr, S, term, wit, dep, nrepr, nS, nterm, nwit, ndep))
+//@   assert n != nil && key[d] == n.c && d < len(key) - 1 && old(n.mid) == nil ==> (toutside(n, repr, S, term, wit, dep, nrepr, nS, nterm, nwit, ndep))
+//@   assert n != nil && key[d] == n.c && d < len(key) - 1 && old(n.mid) != nil ==> (toutside(n, repr, S, term, wit, dep, nrepr, nS, nterm, nwit, ndep))
+//@   assert n == nil && d >= len(key) - 1 ==> (toutside(n, repr, S, term, wit, dep, nrepr, nS, nterm, nwit, ndep))
+//@   assert n != nil && key[d] == n.c && d >= len(key) - 1 ==> (toutside(n, repr, S, term, wit, dep, nrepr, nS, nterm, nwit, ndep))
+//@   assert toutside(n, repr, S, term, wit, dep, nrepr, nS, nterm, nwit, ndep)
 //@   ensures toutside(n, repr, S, term, wit, dep, nrepr, nS, nterm, nwit, ndep)
 //@   ensures forall x *node :: { x.c } old(allocated(x)) ==> x.c == old(x.c)
 //@   call put#1 ghost repr = repr; S = S; term = term; wit = wit; dep = dep; vm = vm
@@ -827,6 +839,8 @@ package trie
 //@   invariant 0 <= i && i <= len(query) && 0 <= length && length <= i && gl == length
 //@   invariant x != nil ==> t.root != nil && x in repr[t.root] && dep[x] == i && agree(query, wit[x], i)
 //@   invariant x != nil ==> ssubset(S[x], S[t.root]) && tlocal(x, repr, S, term, wit, dep, vm)
+//@   invariant x != nil ==> forall k K :: { k in S[x] } k in S[x] ==> agree(k, query, i)
+//@   invariant x != nil && x.isValid ==> term[x] in S[x] && term[x] in S[t.root] && len(term[x]) == i + 1 && agree(term[x], query, i) && term[x][i] == x.c
 //@   invariant length > 0 ==> t.root != nil && lk in S[t.root] && len(lk) == length && agree(lk, query, length)
 //@   invariant forall k K :: { k in S[t.root] } t.root != nil && k in S[t.root] && isprefix(k, query) && len(k) > length ==> x != nil && k in S[x]
 
